@@ -25,15 +25,17 @@ pub struct Tuple {
     pub via_stdin: bool,
     pub argv0: Option<String>,
     pub nested_cwd: bool,
+    /// longer stale files already sit at every output path (state left behind by an earlier invocation)
+    pub stale_outputs: bool,
 }
 
 impl Tuple {
     pub fn baseline() -> Tuple {
-        Tuple { profile: Profile::Debug, hash_seed: 1, clock: None, junk: 0, env: vec![], aslr: false, via_stdin: false, argv0: None, nested_cwd: false }
+        Tuple { profile: Profile::Debug, hash_seed: 1, clock: None, junk: 0, env: vec![], aslr: false, via_stdin: false, argv0: None, nested_cwd: false, stale_outputs: false }
     }
     pub fn to_json(&self) -> Value {
         json!({"profile": self.profile.name(), "hash_seed": self.hash_seed, "clock": self.clock, "junk": self.junk, "env": self.env,
-               "aslr": self.aslr, "via_stdin": self.via_stdin, "argv0": self.argv0, "nested_cwd": self.nested_cwd})
+               "aslr": self.aslr, "via_stdin": self.via_stdin, "argv0": self.argv0, "nested_cwd": self.nested_cwd, "stale_outputs": self.stale_outputs})
     }
     pub fn from_json(v: &Value) -> Option<Tuple> {
         let mut env = Vec::new();
@@ -50,10 +52,13 @@ impl Tuple {
             via_stdin: v.get("via_stdin")?.as_bool()?,
             argv0: v.get("argv0").and_then(|c| c.as_str()).map(|s| s.to_string()),
             nested_cwd: v.get("nested_cwd")?.as_bool()?,
+            stale_outputs: v.get("stale_outputs").and_then(|x| x.as_bool()).unwrap_or(false),
         })
     }
     pub fn random(rng: &mut Rng) -> Tuple {
-        let clock = match rng.below(5) {
+        let clock = match rng.below(8) {
+            5 => Some("1700000000000000000:-1000000".to_string()), // a clock that runs backwards steadily
+            6 | 7 => Some(format!("1700000000000000000:1000;{}:-{}", rng.below(16), 10u64.pow(3 + rng.below(10) as u32))), // set back once, anywhere
             0 => None,
             1 => Some("1700000000000000000:1000".to_string()),
             2 => Some(format!("{}:0", 1_000_000_000u64 + rng.below(1u64 << 40))), // stalled clock
@@ -88,6 +93,7 @@ impl Tuple {
             via_stdin: rng.below(3) == 0,
             argv0: match rng.below(4) { 0 => Some("fml".into()), 1 => Some("/odd path/ſml".into()), _ => None },
             nested_cwd: rng.below(4) == 0,
+            stale_outputs: rng.below(4) == 0,
         }
     }
 }
@@ -148,6 +154,21 @@ pub fn observe(source: &str, t: &Tuple) -> Obs {
     let dir = if t.nested_cwd { root.join("deeper").join("still deeper") } else { root.clone() };
     std::fs::create_dir_all(&dir).unwrap();
     std::fs::write(dir.join("x.fml"), source).unwrap();
+    let junk = "stale output of an earlier, longer run\n".repeat(source.len() / 8 + 200);
+    if t.stale_outputs {
+        let _ = std::fs::create_dir_all(dir.join("logs"));
+        for name in ["x.json", "x.bc", "run.csv", "logs/run.csv", "ex.csv"] {
+            let _ = std::fs::write(dir.join(name), &junk);
+        }
+    }
+    // a stale file that the tool never opened (because it failed earlier) is not an output of this invocation
+    let read_output = |p: std::path::PathBuf| -> Option<Vec<u8>> {
+        match std::fs::read(&p) {
+            Ok(b) if t.stale_outputs && b == junk.as_bytes() => None,
+            Ok(b) => Some(b),
+            Err(_) => None,
+        }
+    };
     let mut children = 0u64;
     let mut clock_reads = 0u64;
     let mut backwards = false;
@@ -178,7 +199,7 @@ pub fn observe(source: &str, t: &Tuple) -> Obs {
         let r = run_child(&dir, &c);
         children += 1;
         note_trace(&r.trace);
-        let out = std::fs::read(dir.join("x.json")).unwrap_or_default();
+        let out = read_output(dir.join("x.json")).unwrap_or_default();
         StageObs { exit: r.exit, out, stderr_empty: r.stderr.is_empty() }
     };
     // compile
@@ -191,7 +212,7 @@ pub fn observe(source: &str, t: &Tuple) -> Obs {
         let r = run_child(&dir, &c);
         children += 1;
         note_trace(&r.trace);
-        let out = std::fs::read(dir.join("x.bc")).unwrap_or_default();
+        let out = read_output(dir.join("x.bc")).unwrap_or_default();
         Some(StageObs { exit: r.exit, out, stderr_empty: r.stderr.is_empty() })
     } else {
         None
@@ -203,7 +224,7 @@ pub fn observe(source: &str, t: &Tuple) -> Obs {
         let r = run_child(&dir, &c);
         children += 1;
         note_trace(&r.trace);
-        let log = std::fs::read(dir.join(if t.via_stdin { "run.csv" } else { "logs/run.csv" })).ok().map(|b| strip_timestamps(&b));
+        let log = read_output(dir.join(if t.via_stdin { "run.csv" } else { "logs/run.csv" })).map(|b| strip_timestamps(&b));
         RunObs { exit: r.exit, stdout: r.stdout, stderr_empty: r.stderr.is_empty(), log }
     };
     // execute
@@ -213,7 +234,7 @@ pub fn observe(source: &str, t: &Tuple) -> Obs {
         let r = run_child(&dir, &c);
         children += 1;
         note_trace(&r.trace);
-        let log = std::fs::read(dir.join("ex.csv")).ok().map(|b| strip_timestamps(&b));
+        let log = read_output(dir.join("ex.csv")).map(|b| strip_timestamps(&b));
         Some(RunObs { exit: r.exit, stdout: r.stdout, stderr_empty: r.stderr.is_empty(), log })
     } else {
         None
@@ -343,6 +364,7 @@ fn varying_fields(a: &Tuple, b: &Tuple) -> String {
     if a.via_stdin != b.via_stdin { v.push("input_channel"); }
     if a.argv0 != b.argv0 { v.push("argv0"); }
     if a.nested_cwd != b.nested_cwd { v.push("cwd"); }
+    if a.stale_outputs != b.stale_outputs { v.push("stale_outputs"); }
     v.join("+")
 }
 
@@ -369,6 +391,7 @@ pub fn minimise(c: &Case, oracle: &str) -> Case {
         };
     }
     try_field!(env);
+    try_field!(stale_outputs);
     try_field!(argv0);
     try_field!(nested_cwd);
     try_field!(via_stdin);
